@@ -4,17 +4,21 @@ of the tree on PYTHONPATH with the real ProtocolHub.
 stdin (JSON), all fields optional:
   "messages": [[factory_name, n, seed, target_or_null], ...]   build real hub messages
   "pbmut":    true                                             protobuf-level value mutations of every kind
-  "parse":    [payload_hex, ...]                               standalone hub.parse outcomes
+  "parse":    [payload_hex | [payload_hex, hub_version], ...]  standalone hub.parse outcomes, computed in forked
+                                                               children (one per domain and hub version)
   "cases":    [[chunk_hex | null, ...], ...]                   scripted read() results (null = None, "" = b''),
-                                                               consumed by the real DevOutThread.run loop
+                                                               consumed by the real DevOutThread.run loop;
+              an entry may be {"chunks": [...], "v": 1|null (hub version), "isolated": bool (forked child)}
   "sweep":    {"tokens": [hex,...], "maxlen": n, "minlen": m, "first": [i,...] | null, "second": [i,...] | null}
 stdout: RESULT {"messages": [{"ser": hex, "frame": hex, "rt": outcome of hub.parse(ser)} | {"exc": cls}],
                 "parse": [outcome], "cases": [{"out": [hex], "exc": cls|null, "table": [[hex, outcome]]}],
                 "sweep": {"n": count, "obs": [[token_indices, [hex...], exc|null], ...] (only streams that deliver/raise),
                           "deviations": [...], "table": [[hex, outcome]], "runs": total}}
-outcome = ["same"] | ["msg", hex] | ["none"] | ["raise", cls]
+outcome = ["same", class] | ["msg", hex, class] | ["none"] | ["raise", exception class]
+Messages are built (one forked child per domain) as FRESH objects: the frame comes from
+DevInThread.serialize(obj) on an object never serialized before, "ser" from another fresh object.
 """
-import sys, json, logging, random, itertools, signal
+import sys, os, json, logging, random, itertools, signal
 logging.disable(logging.CRITICAL)
 from whad.device.device import Device, DevOutThread, DevInThread, DeviceEvt
 from whad.exceptions import WhadDeviceNotReady
@@ -60,10 +64,20 @@ signal.signal(signal.SIGALRM, _on_alarm)
 WATCHDOG_S = 10
 HANGS = [0]          # after 3 hangs the remaining work is skipped (each costs WATCHDOG_S)
 
-DEV = ScriptedDevice()
+from whad.hub import ProtocolHub
+
+DEV = ScriptedDevice()            # hub of the default (last) protocol version, as Device creates it
 HUB = DEV.hub
-_REAL_PARSE = HUB.parse           # bound method of the real ProtocolHub
+DEV1 = ScriptedDevice()           # a device that negotiated protocol version 1 (as Device.discover() does)
+DEV1._Device__hub = ProtocolHub(1)
+DEVS = {None: DEV, 1: DEV1}
+REAL_PARSE = {None: DEV.hub.parse, 1: DEV1.hub.parse}     # bound methods of the real ProtocolHubs
+_REAL_PARSE = REAL_PARSE[None]
 PARSE_LOG = {}
+
+
+def cls_name(m):
+    return type(m).__module__ + "." + type(m).__name__
 
 
 def msg_id(m):
@@ -76,6 +90,7 @@ def msg_id(m):
 
 
 def outcome_of(payload, fn):
+    """["same", cls] | ["msg", hex, cls] | ["none"] | ["raise", exc]"""
     try:
         m = fn(payload)
     except Exception as e:  # noqa
@@ -83,19 +98,66 @@ def outcome_of(payload, fn):
     if m is None:
         return ["none"], None, None
     ser = msg_id(m)
-    return (["same"] if ser == payload else ["msg", ser.hex()]), m, None
+    return (["same", cls_name(m)] if ser == payload else ["msg", ser.hex(), cls_name(m)]), m, None
 
 
-def recording_parse(data):
-    """The real hub.parse, with (payload -> outcome) recorded for the model's table."""
-    oc, m, exc = outcome_of(bytes(data), _REAL_PARSE)
-    PARSE_LOG[bytes(data)] = oc
-    if exc is not None:
-        raise exc
-    return m
+def _recorder(real):
+    def recording_parse(data):
+        """The real hub.parse, with (payload -> outcome) recorded for the model's table."""
+        oc, m, exc = outcome_of(bytes(data), real)
+        PARSE_LOG[bytes(data)] = oc
+        if exc is not None:
+            raise exc
+        return m
+    return recording_parse
 
 
-HUB.parse = recording_parse
+DEV.hub.parse = _recorder(REAL_PARSE[None])
+DEV1.hub.parse = _recorder(REAL_PARSE[1])
+
+
+def isolated(fn):
+    """Run fn() in a forked child and return its (JSON) result: whatever process-global state the
+    code under verification keeps (class-level caches, registries) starts from the state of this
+    process at the time of the fork and cannot leak back.  Used so that the EXPECTED identity of a
+    message (class, bytes) is computed without any other domain's messages having been handled."""
+    r, w = os.pipe()
+    pid = os.fork()
+    if pid == 0:
+        try:
+            os.close(r)
+            try:
+                data = json.dumps({"ok": fn()}).encode()
+            except BaseException as e:  # noqa
+                data = json.dumps({"err": type(e).__name__ + ": " + str(e)[:200]}).encode()
+            with os.fdopen(w, "wb") as f:
+                f.write(data)
+        finally:
+            os._exit(0)
+    os.close(w)
+    buf = bytearray()
+    with os.fdopen(r, "rb") as f:
+        while True:
+            b = f.read(1 << 16)
+            if not b:
+                break
+            buf += b
+    os.waitpid(pid, 0)
+    d = json.loads(bytes(buf).decode()) if buf else {"err": "child died"}
+    if "err" in d:
+        raise RuntimeError("isolated child failed: " + d["err"])
+    return d["ok"]
+
+
+def domain_of_payload(b):
+    """name of the top-level oneof member a payload selects (None if undecodable / unset)"""
+    from whad.protocol.whad_pb2 import Message
+    try:
+        m = Message()
+        m.ParseFromString(b)
+        return m.WhichOneof("msg")
+    except Exception:  # noqa
+        return None
 
 
 def fill(n, seed):
@@ -121,6 +183,16 @@ def fill(n, seed):
     return bytes(out)
 
 
+from whad.hub.generic import cmdresult as _cmdresult
+from whad.hub.generic.progress import Progress
+
+
+def _set(obj, **kw):
+    for k, v in kw.items():
+        setattr(obj, k, v)
+    return obj
+
+
 FACTORIES = {
     # (HUB.generic.create_verbose/create_debug pass keyword names the wrappers do not have and
     #  yield an EMPTY message -- a matter for C02; the wrappers are built directly here)
@@ -130,6 +202,20 @@ FACTORIES = {
     "generic.success": lambda b, r: HUB.generic.create_success(),
     "generic.error": lambda b, r: HUB.generic.create_error(),
     "generic.progress": lambda b, r: HUB.generic.create_progress(r.randrange(1, 100)),
+    "generic.param_error": lambda b, r: HUB.generic.create_param_error(),
+    "generic.disconnected": lambda b, r: HUB.generic.create_disconnected(),
+    "generic.wrong_mode": lambda b, r: HUB.generic.create_wrong_mode(),
+    "generic.unsupported_domain": lambda b, r: HUB.generic.create_unsupported_domain(),
+    "generic.busy": lambda b, r: HUB.generic.create_busy(),
+    "generic.cmd_result_code": lambda b, r: HUB.generic.create_command_result(r.randrange(0, 7)),
+    # wrappers created directly / fields assigned after construction
+    "generic.Error()": lambda b, r: _cmdresult.Error(),
+    "generic.Success()": lambda b, r: _cmdresult.Success(),
+    "generic.Busy()": lambda b, r: _cmdresult.Busy(),
+    "generic.result_set_later": lambda b, r: _set(_cmdresult.CommandResult(), result_code=r.randrange(0, 7)),
+    "generic.progress_set_later": lambda b, r: _set(Progress(), value=r.randrange(1, 1000)),
+    "generic.verbose_set_later": lambda b, r: _set(Verbose(), msg=b or b"late"),
+    "generic.debug_set_later": lambda b, r: _set(Debug(), level=r.randrange(1, 5), msg=b or b"late"),
     "discovery.reset": lambda b, r: HUB.discovery.create_reset_query(),
     "discovery.ready": lambda b, r: HUB.discovery.create_device_ready(),
     "discovery.info_query": lambda b, r: HUB.discovery.create_info_query(0x0100 + r.randrange(3)),
@@ -297,18 +383,64 @@ def build_message(name, n, seed, target):
         last = (msg, ser)
         if target is None or len(ser) == target:
             break
-    msg, ser = last
-    return {"ser": ser.hex(), "frame": bytes(SENDER.serialize(msg)).hex(), "name": name,
+    _msg, ser = last
+    # the sender is given an object that has never been serialized (as when a connector sends a
+    # message it has just created); the reference serialization comes from another fresh object
+    fresh = f(fill(nn, seed), random.Random(seed))
+    frame = bytes(SENDER.serialize(fresh))
+    ref = f(fill(nn, seed), random.Random(seed))
+    ser = bytes(ref.serialize())
+    return {"ser": ser.hex(), "frame": frame.hex(), "name": name, "cls": cls_name(ref),
             "rt": outcome_of(ser, _REAL_PARSE)[0]}
 
 
-def run_case(chunks):
+def build_messages(specs):
+    """one forked child per domain (names of different domains never meet in one process)"""
+    groups = {}
+    for i, sp in enumerate(specs):
+        groups.setdefault(sp[0].split(".")[0], []).append(i)
+    out = [None] * len(specs)
+    for _dom, idxs in groups.items():
+        def work(idxs=idxs):
+            res = []
+            for i in idxs:
+                name, n, seed, target = specs[i]
+                try:
+                    res.append(build_message(name, n, seed, target))
+                except Exception as e:  # noqa
+                    res.append({"exc": type(e).__name__, "name": name})
+            return res
+        for i, r in zip(idxs, isolated(work)):
+            out[i] = r
+    return out
+
+
+def parse_isolated(entries):
+    """standalone hub.parse outcome of payloads ([hex] or [hex, version]), one forked child per
+    (domain, hub version)"""
+    groups = {}
+    norm = []
+    for e in entries:
+        h, v = (e, None) if isinstance(e, str) else (e[0], e[1])
+        norm.append((h, v))
+        groups.setdefault((domain_of_payload(bytes.fromhex(h)), v), []).append(len(norm) - 1)
+    out = [None] * len(norm)
+    for (_dom, v), idxs in groups.items():
+        def work(idxs=idxs, v=v):
+            return [outcome_of(bytes.fromhex(norm[i][0]), REAL_PARSE[v])[0] for i in idxs]
+        for i, r in zip(idxs, isolated(work)):
+            out[i] = r
+    return out
+
+
+def run_case(chunks, version=None):
     if HANGS[0] >= 3:
-        return {"out": [], "exc": None, "table": [], "skipped": True}
-    DEV.got = []
+        return {"out": [], "cls": [], "exc": None, "table": [], "skipped": True}
+    dev = DEVS[version]
+    dev.got = []
     PARSE_LOG.clear()
-    t = DevOutThread(DEV)
-    DEV.script = iter(chunks)
+    t = DevOutThread(dev)
+    dev.script = iter(chunks)
     exc = None
     signal.alarm(WATCHDOG_S)
     try:
@@ -319,8 +451,21 @@ def run_case(chunks):
             HANGS[0] += 1
     finally:
         signal.alarm(0)
-    out = [msg_id(m).hex() for m in DEV.got]
-    return {"out": out, "exc": exc, "table": [[k.hex(), v] for k, v in PARSE_LOG.items()]}
+    out = [msg_id(m).hex() for m in dev.got]
+    return {"out": out, "cls": [cls_name(m) for m in dev.got], "exc": exc,
+            "table": [[k.hex(), v] for k, v in PARSE_LOG.items()]}
+
+
+def run_case_entry(entry):
+    """entry: [chunk_hex | null, ...]  or  {"chunks": [...], "v": 1 | null, "isolated": bool}"""
+    if isinstance(entry, dict):
+        chunks, v, iso = entry["chunks"], entry.get("v"), entry.get("isolated")
+    else:
+        chunks, v, iso = entry, None, False
+    chunks = [None if c is None else bytes.fromhex(c) for c in chunks]
+    if iso:
+        return isolated(lambda: run_case(chunks, v))
+    return run_case(chunks, v)
 
 
 def fresh_thread_factory():
@@ -395,19 +540,13 @@ def main():
     req = json.load(sys.stdin)
     res = {}
     if "messages" in req:
-        out = []
-        for name, n, seed, target in req["messages"]:
-            try:
-                out.append(build_message(name, n, seed, target))
-            except Exception as e:  # noqa
-                out.append({"exc": type(e).__name__, "name": name})
-        res["messages"] = out
+        res["messages"] = build_messages(req["messages"])
     if req.get("pbmut"):
         res["pbmut"] = pb_mutations()
     if "parse" in req:
-        res["parse"] = [outcome_of(bytes.fromhex(h), _REAL_PARSE)[0] for h in req["parse"]]
+        res["parse"] = parse_isolated(req["parse"])
     if "cases" in req:
-        res["cases"] = [run_case([None if c is None else bytes.fromhex(c) for c in chunks]) for chunks in req["cases"]]
+        res["cases"] = [run_case_entry(e) for e in req["cases"]]
     if req.get("sweep"):
         res["sweep"] = run_sweep(req["sweep"])
     print("RESULT " + json.dumps(res))
